@@ -101,6 +101,9 @@ def build(tier, seed, per_harness=4):
         seqs.append((6, p, [("start_code", ())]))
     for p in (range(8) if th else (rnd.randrange(8),)):
         seqs.append((6, p, [("start_code_resync", ())]))
+    # 1c. commit exactly at byte boundaries (and just beside them)
+    for (p, n) in ((0, 8), (0, 16), (3, 13), (0, 7), (1, 8)):
+        seqs.append((6, p, [("read_u32", (n,)), ("commit", ()), ("read_u32", (9,))]))
     # 2. one step from every buffer fill level: prefix x phase x every symbol
     steps = [(pre, p, s) for pre in PREFIXES for p in range(8) for s in SYMS]
     steps = rnd.sample(steps, len(steps) // 2 if th else 28)
